@@ -60,6 +60,33 @@ def gen(rng, tier):
         yield "fan %d %s" % (n, ",".join(evs) or "-")
 
 
+def gen_ha(rng, tier):
+    big = tier == "thorough"
+    for i in range(600 if not big else 10000):
+        ne = rng.randrange(1, 4)
+        steps = []
+        for _ in range(rng.randrange(2, 24)):
+            r = rng.random()
+            if r < 0.25:
+                steps.append("a:" + "".join(rng.choice("1110") for _ in range(ne)))
+            elif r < 0.65:
+                steps.append("o:%d:%s" % (rng.randrange(ne), rng.choice(["r", "r", "e514", "e515", "e257", "e1027"])))
+            else:
+                steps.append("run")
+        steps += ["run"] * rng.randrange(0, 6)
+        yield "ha %d %s" % (ne, ",".join(steps))
+
+
+_gen0 = gen
+
+
+def gen(rng, tier):
+    for l in _gen0(rng, tier):
+        yield l
+    for l in gen_ha(rng, tier):
+        yield l
+
+
 CONFIG = Config()
 CONFIG.pid = "C15"
 CONFIG.props_module = "KsiVerif.Props.C15"
